@@ -100,6 +100,45 @@ pub fn enrich(ms: &mut ModuleSet) {
     }
 }
 
+/// a value whose governing type is defined in a third module: module j holds `typed-j Wide-k ::= 7`
+/// (importing Wide-k from module k), module j+1 imports the value only
+fn enrich_typed_values(ms: &mut ModuleSet) {
+    let n = ms.modules.len();
+    if n < 3 {
+        return;
+    }
+    let add_import = |m: &mut Module, from: &str, sym: String| match m.imports.iter_mut().find(|im| im.from == from) {
+        Some(im) => {
+            if !im.symbols.contains(&sym) {
+                im.symbols.push(sym);
+            }
+        }
+        None => m.imports.push(Import { symbols: vec![sym], from: from.to_string() }),
+    };
+    for j in 0..n - 1 {
+        let i = j + 1;
+        let k = (j + 2) % n;
+        let wide = format!("Wide-{}", (b'a' + k as u8) as char);
+        if !ms.modules[k].items.iter().any(|it| it.name() == wide) {
+            ms.modules[k].items.push(Item::Type {
+                name: wide.clone(),
+                tag: None,
+                ty: Ty::Integer { named: vec![], cons: vec![Con { root: ESet::atom(Atom::Range(End::Int(0), false, End::Int(100000), false)), ext: false, add: None }] },
+            });
+        }
+        let (kname, jname) = (ms.modules[k].name.clone(), ms.modules[j].name.clone());
+        let vname = format!("typed-{}", (b'a' + j as u8) as char);
+        add_import(&mut ms.modules[j], &kname, wide.clone());
+        ms.modules[j].items.push(Item::Value { name: vname.clone(), ty: Ty::Ref { module: None, name: wide, cons: vec![] }, val: Val::Int(7 + j as i128) });
+        add_import(&mut ms.modules[i], &jname, vname.clone());
+        ms.modules[i].items.push(Item::Type {
+            name: format!("Typed-User{i}"),
+            tag: None,
+            ty: Ty::Integer { named: vec![], cons: vec![Con { root: ESet::atom(Atom::Range(End::Int(0), false, End::Ref(vname), false)), ext: false, add: None }] },
+        });
+    }
+}
+
 fn closure(ms: &ModuleSet, start: usize) -> BTreeSet<usize> {
     let by_name: BTreeMap<&str, usize> = ms.modules.iter().enumerate().map(|(i, m)| (m.name.as_str(), i)).collect();
     let mut seen = BTreeSet::new();
@@ -132,40 +171,52 @@ fn compile_blocks(sources: &[String], cfg: &Cfg) -> Result<BTreeMap<String, RMod
     }
 }
 
-fn expected_uses(ms: &ModuleSet, m: &Module, scope: &gen::Scope) -> Vec<(String, Vec<String>, Vec<String>)> {
-    // per IMPORTS clause: (module path, required symbols in order, allowed extras)
-    m.imports
-        .iter()
-        .map(|im| {
-            let path = format!("super::{}", snake_case(&im.from));
-            let mut req = vec![];
-            let mut extras = vec![];
-            for s in &im.symbols {
-                if s.starts_with(|c: char| c.is_uppercase()) {
-                    req.push(title_case(s));
-                } else {
-                    req.push(const_case(s));
-                    // the governing type of an imported value may be imported on top
-                    for fm in &ms.modules {
-                        for it in &fm.items {
-                            if let Item::Value { name, ty: Ty::Ref { name: tn, .. }, .. } = it {
-                                if name == s {
-                                    extras.push(title_case(tn));
-                                }
+/// per IMPORTS clause: (module path, required symbols, allowed extras = governing types of the
+/// imported values that are defined in that same module); plus, per module without a clause, the
+/// governing types defined there (the compiler imports the governing type of an imported value on
+/// top: it must come from the module that defines it)
+#[allow(clippy::type_complexity)]
+fn expected_uses(ms: &ModuleSet, m: &Module, scope: &gen::Scope) -> (Vec<(String, Vec<String>, Vec<String>)>, BTreeMap<String, Vec<String>>) {
+    // governing named types of all values this module imports: (type, defining module)
+    let mut governing: Vec<(String, String)> = vec![];
+    for im in &m.imports {
+        for s in im.symbols.iter().filter(|s| !s.starts_with(|c: char| c.is_uppercase())) {
+            for fm in &ms.modules {
+                for it in &fm.items {
+                    if let Item::Value { name, ty: Ty::Ref { name: tn, .. }, .. } = it {
+                        if name == s {
+                            if let Some(d) = scope.get(tn) {
+                                governing.push((title_case(tn), ms.modules[d.module].name.clone()));
                             }
                         }
                     }
                 }
             }
-            let _ = scope;
+        }
+    }
+    let clauses: Vec<(String, Vec<String>, Vec<String>)> = m
+        .imports
+        .iter()
+        .map(|im| {
+            let path = format!("super::{}", snake_case(&im.from));
+            let req: Vec<String> = im.symbols.iter().map(|s| if s.starts_with(|c: char| c.is_uppercase()) { title_case(s) } else { const_case(s) }).collect();
+            let extras: Vec<String> = governing.iter().filter(|(_, dm)| *dm == im.from).map(|(t, _)| t.clone()).collect();
             (path, req, extras)
         })
-        .collect()
+        .collect();
+    let mut assoc: BTreeMap<String, Vec<String>> = BTreeMap::new();
+    for (t, dm) in &governing {
+        if !m.imports.iter().any(|im| im.from == *dm) && *dm != m.name {
+            assoc.entry(format!("super::{}", snake_case(dm))).or_default().push(t.clone());
+        }
+    }
+    (clauses, assoc)
 }
 
 pub fn eval(ms0: &ModuleSet) -> Verdict {
     let mut ms = ms0.clone();
     enrich(&mut ms);
+    enrich_typed_values(&mut ms);
     let ms = &ms;
     let cfg = Cfg::default();
     let feats = features(ms);
@@ -184,7 +235,29 @@ pub fn eval(ms0: &ModuleSet) -> Verdict {
             return Verdict::Fail { key: "missing-module".into(), finding: None, what: format!("no block for module {}", m.name), observed: json!(null), nontrivial };
         };
         let uses: Vec<&str> = rm.uses().into_iter().filter(|u| u.starts_with("super::")).collect();
-        let exp = expected_uses(ms, m, &scope);
+        let (exp, assoc) = expected_uses(ms, m, &scope);
+        // use lines that belong to no IMPORTS clause: only the governing type of an imported value,
+        // from the module that defines it
+        let mut clause_uses: Vec<&str> = vec![];
+        for u in &uses {
+            let path = u.split("::{").next().unwrap_or(u);
+            if exp.iter().any(|(p, _, _)| p == path) {
+                clause_uses.push(u);
+                continue;
+            }
+            let list: Vec<String> = u.split("::{").nth(1).unwrap_or("").trim_end_matches('}').split(',').filter(|s| !s.is_empty()).map(|s| s.to_string()).collect();
+            let allowed = assoc.get(path).cloned().unwrap_or_default();
+            if list.is_empty() || list.iter().any(|s| !allowed.contains(s)) {
+                return Verdict::Fail {
+                    key: "use-extra-line".into(),
+                    finding: None,
+                    what: format!("module {}: `use {u}` belongs to no IMPORTS clause (governing types of imported values defined in that module: {allowed:?})", m.name),
+                    observed: json!(uses),
+                    nontrivial,
+                };
+            }
+        }
+        let uses = clause_uses;
         if uses.len() != exp.len() {
             return Verdict::Fail {
                 key: "use-count".into(),
@@ -205,7 +278,7 @@ pub fn eval(ms0: &ModuleSet) -> Verdict {
                 return Verdict::Fail {
                     key: "use-symbols".into(),
                     finding: None,
-                    what: format!("module {}: `use {u}`: missing {missing:?}, unexpected {unexpected:?} (IMPORTS {req:?})", m.name),
+                    what: format!("module {}: `use {u}`: missing {missing:?}, unexpected {unexpected:?} (IMPORTS {req:?}; governing types defined in that module: {extras:?})", m.name),
                     observed: json!(uses),
                     nontrivial,
                 };
